@@ -169,9 +169,9 @@ class ManagedFilter {
       static_assert(
           !std::is_same_v<typename Impl::Tag::ControlT, std::false_type>);
       if (state.currentTime >= outputTime) {
-        return Impl::Tag::max_dt_sec;
+        return -Impl::Tag::max_dt_sec;
       }
-      return -Impl::Tag::max_dt_sec;
+      return Impl::Tag::max_dt_sec;
     })(_state);
 
     typename Impl::Tag::StateAndVarianceT state = _state.state;
@@ -205,9 +205,9 @@ class ManagedFilter {
         std::is_same_v<typename Impl::Tag::ControlT, std::false_type>);
     const double max_dt = ([outputTime](const State& state) {
       if (state.currentTime >= outputTime) {
-        return Impl::Tag::max_dt_sec;
+        return -Impl::Tag::max_dt_sec;
       }
-      return -Impl::Tag::max_dt_sec;
+      return Impl::Tag::max_dt_sec;
     })(_state);
 
     typename Impl::Tag::StateAndVarianceT state = _state.state;
